@@ -36,7 +36,7 @@ MANIFEST_NOTE = ("Trusted: Lean kernel, the hand-written model's fidelity (diffe
 TECHNIQUE = "Lean 4 proof over a tracker/buffer/round model and rank-level transition systems + MPI differential correspondence with schedule steering, hang alarm, delivery and balance oracles"
 TRANSLATORS = []
 HARNESS = dict(
-    sources=["mpi_c06.cc", "pmpi_sched.cc"],
+    sources=["mpi_c06.cc", "mpi_c06_cfg.cc", "pmpi_sched.cc"],
     mpi=True,
     repo_sources=["dune/common/exceptions.cc", "dune/common/stdstreams.cc"],
     flags=["-O0"],  # six item types x the whole communicator template: ~14 s instead of ~60 s; the sanitizers stay on
